@@ -532,13 +532,31 @@ def cond_blocks(f, loop, cond_texts, target):
     for n in ast.walk(loop):
         if not isinstance(n, ast.If):
             continue
-        facts = norm_facts_of_test(n.test)
-        if len(facts) != 1:
+        # which way does the `if` go when the wanted condition is true?  a single test decides it; so does a disjunct of
+        # `a or b` (condition true => test true) and a conjunct of `a and b` whose truth needs the condition false
+        # (condition true => test false)
+        way = None
+        parts = [(n.test, "single")]
+        if isinstance(n.test, ast.BoolOp):
+            parts += [(v, "or" if isinstance(n.test.op, ast.Or) else "and") for v in n.test.values]
+        for part, mode in parts:
+            facts = norm_facts_of_test(part)
+            if len(facts) != 1:
+                continue
+            (t, pol), = facts
+            if t not in want:
+                continue
+            same = pol == want[t]          # part is true exactly when the wanted condition is true
+            if mode == "single":
+                way = same
+                break
+            elif mode == "or" and same:
+                way = True
+            elif mode == "and" and not same:
+                way = False
+        if way is None:
             continue
-        (t, pol), = facts
-        if t not in want:
-            continue
-        succs = cfg.succ_on(n, pol == want[t])         # the edge taken when the condition itself is true
+        succs = cfg.succ_on(n, way)         # the edge taken when the condition itself is true
         reach = False
         for s_ in succs:
             if s_ is tgt or (not isinstance(s_, str) and cfg.reachable(s_, tgt, within=loop)):
